@@ -714,7 +714,14 @@ func (StoreCorruptEngine) Gen(prop, tier string, seed uint64, yield func(c any) 
 		if s.AA != nil && s.AA.Kind == "rsa" {
 			s.AA.Bits = 1024
 		}
-		if !yield(StoreCorruptCase{Spec: s, Evidence: i%3 != 0, Synthetic: rng.Intn(8), DropFiles: rng.Intn(64), Stride: 1}) {
+		stride := 1
+		if i%8 == 5 {
+			// larger payloads (several checksum / copy blocks); every third position to bound the cost
+			s.DGs = []int{1, 2}
+			s.DG2Size = core.Pick(rng, []int{4200, 6000, 9000, 13000})
+			stride = 3
+		}
+		if !yield(StoreCorruptCase{Spec: s, Evidence: i%3 != 0, Synthetic: rng.Intn(8), DropFiles: rng.Intn(64), Stride: stride}) {
 			return
 		}
 	}
@@ -901,7 +908,11 @@ func (StoreCorruptEngine) Run(prop string, ci any) *core.Outcome {
 	}
 	stride := max(1, c.Stride)
 	envelopeRegion := 80
-	for pos := 0; pos < len(blob); pos += stride {
+	start := 0
+	if stride > 1 {
+		start = int(c.Spec.Seed % uint64(stride))
+	}
+	for pos := start; pos < len(blob); pos += stride {
 		subs := []byte{blob[pos] ^ 0x01, blob[pos] ^ 0x80, 0x00, 0xFF}
 		if pos < envelopeRegion || pos >= len(blob)-4 {
 			subs = subs[:0]
